@@ -392,8 +392,14 @@ def run_stream(ctx_or_rng, n: int, events_per_query: int = 2) -> Tuple[int, int,
         else:
             if o.get("wt"):
                 count("inside-proved-fragment")
+            if o.get("wf"):
+                count("model-package-wellformed")
+            if o.get("eventlocal"):
+                count("model-package-eventlocal")
             if o.get("depth") != max(depth_of(c["e"]) for c in dq["cols"]):
                 bad = {"kind": "driver", "what": f"depth: lean {o.get('depth')} / python {max(depth_of(c['e']) for c in dq['cols'])}"}
+            if bad is None and not (o.get("wf") and o.get("eventlocal")):
+                bad = {"kind": "model-instance", "what": f"Gen.compileD's package: WellFormed={o.get('wf')} EventLocal={o.get('eventlocal')}", "model_body": o.get("body")}
             d = gentie.first_diff(gentie.model_canon(o), gentie.impl_canon(r)) if bad is None else None
             if bad is not None:
                 pass
